@@ -136,6 +136,14 @@ def main():
     close(R.opnorm(np.diag([3.0, 1.0]), [1, 1], [1, 1]), 3.0)
     close(R.opnorm(np.diag([3.0, 1.0]), [9.0, 1.0], [1, 1]), 1.0)     # ||Ax|| / ||x||_w: 3/3, 1/1
     close(R.opnorm(np.array([[1.0, 1.0]]), [1, 1], [4.0]), 2 * np.sqrt(2.0))
+    # start (almost) orthogonal to the dominant direction: diag(3, 1) -> e_2 + leak e_1; with
+    # wx = (9, 1) the quotients are 3/3 and 1/1 - taken apart by wx = (16, 1): 3/4 < 1, so the
+    # dominant unit vector is e_2 and the weak one e_1 / 4; wide matrix: weak direction in the kernel
+    close(R.weak_start(np.diag([3.0, 1.0]), [1, 1], [1, 1], 0.25), [0.25, 1.0])
+    close(R.weak_start(np.diag([3.0, 1.0]), [16.0, 1.0], [1, 1], 0.5), [0.25, 0.5])
+    v = R.weak_start(np.array([[1.0, 1.0]]), [1, 1], [4.0], 0.0)
+    close(np.abs(v), [np.sqrt(0.5)] * 2)
+    close(v[0] + v[1], 0.0)
     # ---- a hand-solved problem: min ||x - a||^2 + ||Dx||_1, a = (1, 2, -1), D = forward differences
     # Guess x2 > x3 (y2 = -1) and x1 = x2 (y1 free in [-1, 1]).  Stationarity 2(x - a) = -D^T y with
     # -D^T y = (y1, -y1 + y2, -y2) gives x = a + (y1, -y1 - 1, 1) / 2; x1 = x2 forces y1 = 1/2, hence
